@@ -173,6 +173,36 @@ fn gen(a: &Args) {
             idx += 1;
         }
     }
+    // (2f) every way a string can START: all (first, second) byte pairs of 2-, 3- and 4-byte characters with the extreme
+    // continuation bytes after them, alone and followed by ASCII, through every str-like constructor incl. `from_static`
+    // (seed12 C20-24 stripped EF BB xx as a "byte order mark")
+    writeln!(w, "case first-chars").unwrap();
+    let mut firsts: Vec<String> = vec![];
+    for b0 in 0xC2u8..=0xF4 {
+        for b1 in 0x80u8..=0xBF {
+            for tail in [0x80u8, 0xBF] {
+                let v: Vec<u8> = match b0 {
+                    0xC2..=0xDF => vec![b0, b1],
+                    0xE0..=0xEF => vec![b0, b1, tail],
+                    _ => vec![b0, b1, tail, tail],
+                };
+                if let Ok(t) = String::from_utf8(v) {
+                    if firsts.last() != Some(&t) {
+                        firsts.push(t);
+                    }
+                }
+            }
+        }
+    }
+    for (i, t) in firsts.iter().enumerate() {
+        writeln!(w, "fromstr {}", hex(t.as_bytes())).unwrap();
+        if thorough || i % 3 == 0 {
+            writeln!(w, "fromstr {}", hex(format!("{t}x").as_bytes())).unwrap();
+        }
+    }
+    for t in ["\u{FEFF}", "\u{FEFF}x", "\u{FEFB}x", "\u{FEC0}", "\u{FEFF}\u{FEFF}", "x\u{FEFF}"] {
+        writeln!(w, "fromstr {}", hex(t.as_bytes())).unwrap();
+    }
     // (2d) Display with width / precision / fill / alignment agrees with str
     let mut n = 0;
     for s in ["", "a", "ab", "aéb", "€uro", "😀", "a😀é€b", "abcdefgh"] {
@@ -433,7 +463,12 @@ fn run(a: &Args) {
                     let b1 = ByteString::from(s.as_str());
                     let b2 = ByteString::from(s.clone());
                     let b3 = ByteString::from(s.clone().into_boxed_str());
-                    for b in [&b1, &b2, &b3] {
+                    // the const constructor takes a `&'static str`: the (short) string is leaked to get one
+                    let b4 = if s.len() <= 4096 { ByteString::from_static(Box::leak(s.clone().into_boxed_str())) } else { b1.clone() };
+                    if b4.len() != s.len() || b4.as_bytes() != s.as_bytes() || String::from(b4.clone()) != s {
+                        rep.t3("C20", &format!("from_static({}) holds {}", hex(s.as_bytes()), hex(b4.as_bytes())));
+                    }
+                    for b in [&b1, &b2, &b3, &b4] {
                         check_valid(b, &mut rep, "From<str>");
                         if **b != *s {
                             rep.t3("C20", "From<str-like> changed the contents");
